@@ -208,11 +208,12 @@ Theorem C11_F5_refuted :
 Proof. exact F5_refuted. Qed.
 Print Assumptions C11_F5_refuted.
 
-(** RFC 7234 cache of an endpoint: outside the guard of C11-F8 (requests that
-    differ in a header the server lists in Vary) every response served from the
-    cache is the one a fresh request would get *)
+(** RFC 7234 cache of an endpoint: outside the guards of C11-F8 (requests that
+    differ in a header the server lists in Vary) and C11-F9 (POST requests with
+    different bodies) every response served from the cache is the one a fresh
+    request would get *)
 Theorem C11_hc_cache_transparent : forall fx8 H c h,
-  g_F8 fx8 c h = false ->
+  g_F8 fx8 c h = false -> g_F9 fx8 c h = false ->
   map sr_out (hc_run fx8 H c [] h) = map (fun x => OAllow (hc_result c x)) h.
 Proof. exact hc_cache_transparent. Qed.
 Print Assumptions C11_hc_cache_transparent.
@@ -222,3 +223,20 @@ Theorem C11_F8_refuted :
     forall H, map sr_out (hc_run false H c [] [a; b]) <> map (fun x => OAllow (hc_result c x)) [a; b].
 Proof. exact F8_refuted. Qed.
 Print Assumptions C11_F8_refuted.
+
+Theorem C11_F9_refuted :
+  exists c a b, g_F9 false c [a; b] = true /\ g_F8 false c [a; b] = false /\
+    forall H, map sr_out (hc_run false H c [] [a; b]) <> map (fun x => OAllow (hc_result c x)) [a; b].
+Proof. exact F9_refuted. Qed.
+Print Assumptions C11_F9_refuted.
+
+(** Key cache of the jwt authenticator: for every history of tokens — any claimed
+    issuers, key ids and signing keys, templated or literal JWKS URL — a token
+    is verified with the cache exactly as without it (the key comes from the
+    JWKS URL rendered for this token's issuer), unless two pre-images can be
+    shifted against each other *)
+Theorem C11_jk_cache_transparent : forall H w h,
+  (forall x y, H x = H y -> x = y) -> g_jk_F4 H h = false ->
+  map sr_out (jk_run H w [] h) = map (fun x => jk_fresh w (fst x) (snd x)) h.
+Proof. exact jk_cache_transparent. Qed.
+Print Assumptions C11_jk_cache_transparent.
